@@ -4,6 +4,6 @@ CONSTANTS
   Pats <- PatsOpt
   LowHeadingAlways = FALSE
   HashOrderEntries = FALSE
-INVARIANTS Listed Totals Deterministic CanonIsARendering DumpBehaviour
+INVARIANTS Listed Totals Deterministic CanonIsARendering ValueIsReadBack DumpBehaviour
 PROPERTY Terminates
 CHECK_DEADLOCK FALSE
